@@ -1,12 +1,11 @@
 (* Properties_C04.v -- C04: quaternion, matrix, axis-angle and Euler forms of a rotation agree.
    Statements only; proofs are `exact <lemma>` from P_C04_*.v, checked against the models regenerated from /repo on
    this run in both quaternion storage orders (W.Gen_C04, W.Gen_C04_WXYZ).  Real-number semantics (evalR).
-   Not (yet) theorems, exercised by the oracle only: quat_cast(mat3_cast q) = +-q, angleAxis(angle q, axis q) = q,
-   quat(eulerAngles q), the two-vector constructor, extractEulerAngleABC round trips. *)
+   Not (yet) theorems, exercised by the oracle only: quat(eulerAngles q) and the extractEulerAngleABC round trips. *)
 Require Import ZArith List String Bool Reals.
 Import ListNotations.
 From GLMV Require Import Expr SemR Cat Comm Chk SpecLinAlg SpecProj SpecGeom.
-From W Require Gen_C04 Gen_C04_WXYZ P_C04_a P_C04_euler P_C04_wxyz P_C04_axis.
+From W Require Gen_C04 Gen_C04_WXYZ P_C04_a P_C04_euler P_C04_wxyz P_C04_axis P_C04_cast P_C04_aa P_C04_two.
 Local Open Scope string_scope.
 Theorem C04_rotation_by_quaternion_is_its_matrix : P_C04_a.rot_ok. Proof. exact P_C04_a.rot_def. Qed.
 Theorem C04_matrix_of_product_is_product_of_matrices : P_C04_a.prod_ok. Proof. exact P_C04_a.prod_def. Qed.
@@ -24,9 +23,23 @@ Theorem C04_axis_is_a_unit_vector : forall env, (P_C04_axis.qx env * P_C04_axis.
     ((1 - P_C04_axis.qw env * P_C04_axis.qw env <= 0)%R -> a = 0%R /\ b = 0%R /\ c = 1%R) /\
     ((0 < 1 - P_C04_axis.qw env * P_C04_axis.qw env)%R -> exists s, (0 < s)%R /\ a = (P_C04_axis.qx env * s)%R /\ b = (P_C04_axis.qy env * s)%R /\ c = (P_C04_axis.qz env * s)%R).
 Proof. exact P_C04_axis.axis_is_unit. Qed.
+(* quat_cast(mat3_cast q) = +-q and quat_cast(mat4_cast q) = +-q for every unit q (all 8 paths of the largest-of-four tree) *)
+Theorem C04_quat_cast_of_mat3_cast_is_plus_or_minus_q : P_C04_cast.cast_ok Gen_C04.t_quat_cast_of_mat3_cast. Proof. exact P_C04_cast.cast3_def. Qed.
+Theorem C04_quat_cast_of_mat4_cast_is_plus_or_minus_q : P_C04_cast.cast_ok Gen_C04.t_quat_cast_of_mat4_cast. Proof. exact P_C04_cast.cast4_def. Qed.
+(* angleAxis(angle q, axis q): q itself for w >= -cos(1/2); q turned by float(pi) - pi about its own axis below that *)
+Theorem C04_angleAxis_of_angle_and_axis : P_C04_aa.aa_ok Gen_C04.t_angleAxis_of_angle_axis. Proof. exact P_C04_aa.aa_def. Qed.
+Theorem C04_float_pi_is_close : (0 <= 1 - P_C04_aa.A_ <= 1 / 2 ^ 40 /\ Rabs P_C04_aa.B_ <= 1 / 2 ^ 22)%R. Proof. exact P_C04_aa.float_pi_is_close. Qed.
+(* qua(u, v) rotates u onto the direction of v (standard branch), and onto -u on the nearly-opposite branch *)
+Theorem C04_two_vector_quaternion_rotates_u_to_v : P_C04_two.two_ok Gen_C04.t_two_vectors_rotate_u. Proof. exact P_C04_two.two_def. Qed.
+Theorem C04_two_vector_quaternion_opposite : P_C04_two.opp_ok Gen_C04.t_two_vectors_rotate_u. Proof. exact P_C04_two.opp_def. Qed.
 Print Assumptions C04_rotation_by_quaternion_is_its_matrix.
 Print Assumptions C04_matrix_of_product_is_product_of_matrices.
 Print Assumptions C04_inverse_conjugate_hamilton.
 Print Assumptions C04_three_axis_euler_matrices_factor.
 Print Assumptions C04_storage_order_changes_nothing.
 Print Assumptions C04_axis_is_a_unit_vector.
+Print Assumptions C04_quat_cast_of_mat3_cast_is_plus_or_minus_q.
+Print Assumptions C04_angleAxis_of_angle_and_axis.
+Print Assumptions C04_float_pi_is_close.
+Print Assumptions C04_two_vector_quaternion_rotates_u_to_v.
+Print Assumptions C04_two_vector_quaternion_opposite.
